@@ -40,7 +40,7 @@ impl Family for SepComp {
         120
     }
     fn rule(&self) -> &'static str {
-        "projects = the 8 recorded multi-package corpus projects + 6 generated projects over {chain, diamond, fan-in, fan-out, two files per package} with cross-package generic fns, generic enums, structs, traits, impls in the trait's or the type's package, bound-generic code over a foreign trait + 4 ill-typed variants (error in leaf / middle / root) + one project per import DAG on 5 packages in which Main reaches every package (<= 4 edges, plus 5-edge ones in one naming, in quick; all in thorough) x 2 directory namings x {well-typed, every leaf ill-typed}; for each project every topological build order (<= 24) x {build only, check before build}; artifacts are written to and re-read from *.interface / *.core files; oracle: link succeeds iff whole-program compile succeeds; Go(link) and Go(whole) both pass the Go checker and print the same output (= the recorded output for corpus projects); check and build emit the same interface; every build order gives byte-identical artifacts. states = (packages built, artifact bytes) visited, transitions = check/build/link calls. non-trivial = projects with >= 2 packages; distinct = distinct (project, order, mode)"
+        "projects = the 8 recorded multi-package corpus projects + 6 generated projects over {chain, diamond, fan-in, fan-out, two files per package} with cross-package generic fns, generic enums, structs, traits, impls in the trait's or the type's package, bound-generic code over a foreign trait + 4 ill-typed variants (error in leaf / middle / root) + 5 projects whose import graph is not a DAG (self-import of Main / of a library, used or not, a two-cycle, a library importing Main; no order is valid, so every permutation of the packages is tried and must be rejected) + one project per import DAG on 5 packages in which Main reaches every package (<= 4 edges, plus 5-edge ones in one naming, in quick; all in thorough) x 2 directory namings x {well-typed, every leaf ill-typed}; for each project every topological build order (<= 24) x {build only, check before build}; artifacts are written to and re-read from *.interface / *.core files; oracle: link succeeds iff whole-program compile succeeds; Go(link) and Go(whole) both pass the Go checker and print the same output (= the recorded output for corpus projects); check and build emit the same interface; every build order gives byte-identical artifacts. states = (packages built, artifact bytes) visited, transitions = check/build/link calls. non-trivial = projects with >= 2 packages; distinct = distinct (project, order, mode)"
     }
     fn cases(&self, tier: Tier) -> Box<dyn Iterator<Item = Value> + '_> {
         let nf = fixed_projects().len();
@@ -93,7 +93,27 @@ impl Family for SepComp {
             }
         }
         // separate: every topological order × {build, check+build}
-        let orders = topo_orders(&pkgs);
+        let mut orders = topo_orders(&pkgs);
+        if orders.is_empty() && pkgs.len() <= 4 {
+            // the import graph has a cycle: no order is valid, so every permutation is tried and
+            // each must be rejected (at a build that misses an interface, or at link)
+            rep.tag("cyclic:all-permutations");
+            fn perms(rest: &mut Vec<String>, cur: &mut Vec<String>, out: &mut Vec<Vec<String>>) {
+                if rest.is_empty() {
+                    out.push(cur.clone());
+                    return;
+                }
+                for i in 0..rest.len() {
+                    let x = rest.remove(i);
+                    cur.push(x.clone());
+                    perms(rest, cur, out);
+                    cur.pop();
+                    rest.insert(i, x);
+                }
+            }
+            let mut names: Vec<String> = pkgs.iter().map(|p| p.name.clone()).collect();
+            perms(&mut names, &mut Vec::new(), &mut orders);
+        }
         rep.tag(format!("orders:{}", orders.len()));
         let mut first_artifacts: Option<std::collections::BTreeMap<String, (String, Option<String>, String)>> = None;
         let mut states = std::collections::BTreeSet::new();
